@@ -27,6 +27,57 @@ ASSUMPTIONS = ["terms are compared by normal form and randomised identity testin
 REL, CREL = "disk/vdi.py", "disk/c_vdi.py"
 
 
+def _read_by_evaluation(chk: Check, ctx, loop, bs, doff, m, fh, parent):
+    """VDI._read decided on model images: the block map is a concrete tuple, the loop is evaluated round by round and the
+    assembled result - a map output range -> zeros | own file range | parent range, however the pieces are collected - is
+    compared with: map[b] == -1 -> the parent at the same guest offset (zeros without a parent); -2 -> zeros; otherwise the file
+    bytes at offset_data + map[b] * block_size + offset in block."""
+    from ..rulelib import simulate_assembly
+    from .C04 import canonical_segments
+    P1, P2 = ("p", ctx.qual, 1), ("p", ctx.qual, 2)
+    bad = []
+    n = 0
+    for block_size in (4096, 1 << 20, 3 << 19):
+        data_offset = 2 << 20
+        maps = [(0, 1, 2, 3), (-1, -1, -1, -1), (-2, -2, -2, -2), (3, -1, 0, -2), (-1, 2, -2, 7), (2, 1, 0, -1)]
+        reqs = [(0, 4 * block_size), (0, block_size), (512, block_size), (block_size - 512, 1024), (block_size + 512, 2 * block_size),
+                (512, 3 * block_size + 1024), (2 * block_size, 2 * block_size), (3 * block_size + 512, 512)]
+        for mp in maps:
+            for par in (None, S.Rec("parent image")):
+                for off, ln in reqs:
+                    res = simulate_assembly(chk, ctx, loop, base={bs: block_size, doff: data_offset, m: mp, parent: par, P1: off, P2: ln},
+                                            own_handle=fh, parent=parent)
+                    if res is None:
+                        return None
+                    segs, total = res
+                    want = []
+                    pos, rem, out = off, ln, 0
+                    while rem > 0:
+                        b, o = divmod(pos, block_size)
+                        k = min(rem, block_size - o)
+                        e = mp[b]
+                        if e == -1:
+                            want.append((out, k, "parent", pos) if par is not None else (out, k, "zeros", None))
+                        elif e == -2:
+                            want.append((out, k, "zeros", None))
+                        else:
+                            want.append((out, k, "file", data_offset + e * block_size + o))
+                        out += k
+                        pos += k
+                        rem -= k
+                    n += 1
+                    got_c, want_c = canonical_segments(segs, total), canonical_segments(want, ln)
+                    if total is None and got_c is not None and sum(x[1] for x in got_c) != ln:
+                        got_c = None
+                    if got_c != want_c:
+                        bad.append(f"block size {block_size}, map {mp}, {'with' if par is not None else 'no'} parent, _read({off}, {ln}): assembles "
+                                   f"{got_c if got_c is not None else segs}, specified {want_c}")
+    chk.decide(not bad, "K-KIND", "read-by-evaluation", loop,
+               f"{n} model requests (3 block sizes; identity, unallocated, sparse and mixed maps; with and without parent; aligned and unaligned "
+               "requests) assemble parent / zeros / own-file ranges as specified, each at its place in the result" if not bad else "; ".join(bad[:2]))
+    return not bad
+
+
 def run(chk: Check):
     R = chk.R
     check_layout(chk, CREL, "HeaderDescriptor")
@@ -75,12 +126,16 @@ def run(chk: Check):
     if not loops:
         raise AnalysisError("ANCHOR-VANISHED VDI._read has no while loop")
     loop = loops[0]
+    sim = _read_by_evaluation(chk, ctx, loop, F("block_size"), F("offset_data"), m, R.self_attr(vk, "fh"), R.self_attr(vk, "parent"))
     carried = loop_carried(chk, ctx, loop)
     pname, pinfo = carried_with_entry(chk, carried, ("p", ctx.qual, 1))
     rname, rinfo = carried_with_entry(chk, carried, ("p", ctx.qual, 2))
     if pinfo is None or rinfo is None:
-        chk.undecided("K-SPLIT", "loop-counters", loop, "cannot identify offset/length loop variables")
+        if sim is None:
+            chk.undecided("K-SPLIT", "loop-counters", loop, "cannot identify offset/length loop variables")
         return
+    if sim is True and not appends_in(chk, ctx):
+        return  # the result is not assembled by appending pieces: the evaluation above is the decision
     POS, REM = pinfo["phi"], rinfo["phi"]
     bs = F("block_size")
     env = {"POS": POS, "REM": REM, "bs": bs, "data_offset": F("offset_data"),
